@@ -163,7 +163,7 @@ func c05opts() genOpts {
 }
 
 func c05payload(r *Rng) string {
-	parts := []string{"a", "bc", " ", "\n", "\n\n", startM, endM, redactedM, "?", "é", "日", "\"", "\\", "%", "0", "x=1", "", "nº", "‰", "※"}
+	parts := []string{"a", "bc", " ", "\n", "\n\n", startM, endM, redactedM, "?", "é", "日", "\"", "\\", "%", "0", "x=1", "", "nº", "‰", "※", "☺", "⁹"}
 	n := r.Intn(4)
 	var b strings.Builder
 	for i := 0; i < n; i++ {
@@ -328,7 +328,7 @@ func c05call(r *Rng) *Call {
 		if vs == "" {
 			vs = "v"
 		}
-		d := Dir{Lit: []string{"", "x", "lit ", "=", startM, "\n", "é", "%%", "nº", "‰"}[r.Intn(10)]}
+		d := Dir{Lit: []string{"", "x", "lit ", "=", startM, "\n", "é", "%%", "nº", "‰", "ok ☺", "⁹"}[r.Intn(12)]}
 		d.Verb = string(vs[r.Intn(len(vs))])
 		if r.Chance(1, 2) {
 			d.Verb = "v"
